@@ -46,7 +46,22 @@ pub enum HFault {
     /// one entry of a stream dictionary set (or added): a /Length that disagrees with the data, a
     /// /Filter array of 1000 stages, /DecodeParms of mismatching length
     StreamKey { rev: usize, num: u32, key: String, text: String },
+    /// one string value replaced by a hostile string (dates with multi-byte text on a field border,
+    /// lone byte-order marks, unpaired surrogates, 10 000 bytes, nothing)
+    StrValue { site: Site, bytes: Vec<u8> },
+    /// one name value replaced by another name that selects a different reader (/Subtype, /Type,
+    /// /Filter, colour space and encoding names)
+    NameValue { site: Site, name: String },
 }
+
+const HOSTILE_STRINGS: [&[u8]; 14] = [
+    b"", b"D:", b"D:2020", b"D:20201\xc3\xa94", b"D:2020010100000\xc3\xa9", b"D:20200101000000+99'99'", b"D:20200101000000+0\xc3\xa9'00'", b"D:99999999999999Z",
+    b"\xfe\xff", b"\xfe\xff\xd8\x00", b"\xfe\xff\xd8\x00\x00A", b"\\", b"((((", b"@long",
+];
+const HOSTILE_NAMES: [&str; 34] = [
+    "Type0", "Type1", "TrueType", "CIDFontType0", "CIDFontType2", "Type3", "MMType1", "Image", "Form", "Pages", "Page", "Catalog", "Font", "XObject", "ObjStm", "XRef", "DeviceN", "Separation",
+    "Indexed", "ICCBased", "Pattern", "CalRGB", "Lab", "Identity-H", "FlateDecode", "LZWDecode", "DCTDecode", "CCITTFaxDecode", "JBIG2Decode", "JPXDecode", "Crypt", "RunLengthDecode", "ASCII85Decode", "Identity",
+];
 
 const PAYLOADS: [&str; 49] = [
     // expanded when applied: 150 000 '%' without a line end; 150 000 '(' (unbalanced string)
@@ -85,7 +100,7 @@ impl HFault {
     /// the object the fault is planted in (None: the cross-reference section / trailer)
     pub fn obj_num(&self) -> Option<u32> {
         match self {
-            HFault::Retarget { site, .. } | HFault::Boundary { site, .. } | HFault::Nest { site, .. } | HFault::DropKey { site } => Some(site.num),
+            HFault::Retarget { site, .. } | HFault::Boundary { site, .. } | HFault::Nest { site, .. } | HFault::DropKey { site } | HFault::StrValue { site, .. } | HFault::NameValue { site, .. } => Some(site.num),
             HFault::LenRef { num, .. } | HFault::Payload { num, .. } | HFault::StreamKey { num, .. } => Some(*num),
             HFault::Override { .. } => None,
         }
@@ -100,6 +115,8 @@ impl HFault {
             HFault::Payload { .. } => "payload",
             HFault::DropKey { .. } => "drop_key",
             HFault::StreamKey { .. } => "stream_key",
+            HFault::StrValue { .. } => "string_value",
+            HFault::NameValue { .. } => "name_value",
         }
     }
     pub fn to_json(&self) -> J {
@@ -111,6 +128,8 @@ impl HFault {
             HFault::LenRef { rev, num, target } => json!({"kind": "length_ref", "rev": rev, "num": num, "target": target}),
             HFault::Payload { rev, num, data } => json!({"kind": "payload", "rev": rev, "num": num, "data": String::from_utf8_lossy(data)}),
             HFault::DropKey { site } => json!({"kind": "drop_key", "site": site_json(site)}),
+            HFault::StrValue { site, bytes } => json!({"kind": "string_value", "site": site_json(site), "bytes": crate::docgen::hex(bytes)}),
+            HFault::NameValue { site, name } => json!({"kind": "name_value", "site": site_json(site), "name": name}),
             HFault::StreamKey { rev, num, key, text } => json!({"kind": "stream_key", "rev": rev, "num": num, "key": key, "text": text.chars().take(80).collect::<String>(), "len": text.len()}),
         }
     }
@@ -123,6 +142,8 @@ impl HFault {
             "length_ref" => HFault::LenRef { rev: j.get("rev")?.as_u64()? as usize, num: j.get("num")?.as_u64()? as u32, target: j.get("target")?.as_u64()? as u32 },
             "payload" => HFault::Payload { rev: j.get("rev")?.as_u64()? as usize, num: j.get("num")?.as_u64()? as u32, data: j.get("data")?.as_str()?.as_bytes().to_vec() },
             "drop_key" => HFault::DropKey { site: site_from(j.get("site")?)? },
+            "string_value" => HFault::StrValue { site: site_from(j.get("site")?)?, bytes: crate::docgen::unhex(j.get("bytes")?.as_str()?)? },
+            "name_value" => HFault::NameValue { site: site_from(j.get("site")?)?, name: j.get("name")?.as_str()?.to_string() },
             "stream_key" => HFault::StreamKey { rev: j.get("rev")?.as_u64()? as usize, num: j.get("num")?.as_u64()? as u32, key: j.get("key")?.as_str()?.to_string(), text: j.get("text")?.as_str()?.to_string() },
             _ => return None,
         })
@@ -130,20 +151,27 @@ impl HFault {
 }
 
 fn collect(v: &Val, path: &mut Vec<PathElem>, refs: &mut Vec<Vec<PathElem>>, nums: &mut Vec<Vec<PathElem>>) {
+    let (mut s, mut n) = (vec![], vec![]);
+    collect_all(v, path, refs, nums, &mut s, &mut n);
+}
+
+fn collect_all(v: &Val, path: &mut Vec<PathElem>, refs: &mut Vec<Vec<PathElem>>, nums: &mut Vec<Vec<PathElem>>, strs: &mut Vec<Vec<PathElem>>, names: &mut Vec<Vec<PathElem>>) {
     match v {
         Val::Ref(..) => refs.push(path.clone()),
         Val::Int(_) | Val::Real(_) => nums.push(path.clone()),
+        Val::Str(_) => strs.push(path.clone()),
+        Val::Name(_) => names.push(path.clone()),
         Val::Arr(a) => {
             for (i, x) in a.iter().enumerate() {
                 path.push(PathElem::Idx(i));
-                collect(x, path, refs, nums);
+                collect_all(x, path, refs, nums, strs, names);
                 path.pop();
             }
         }
         Val::Dict(d) => {
             for (k, x) in d {
                 path.push(PathElem::Key(k.clone()));
-                collect(x, path, refs, nums);
+                collect_all(x, path, refs, nums, strs, names);
                 path.pop();
             }
         }
@@ -257,6 +285,18 @@ pub fn single_faults_near(spec: &DocSpec, first: u32) -> Vec<HFault> {
                 for p in nums {
                     for b in BOUNDARIES {
                         out.push(HFault::Boundary { site: Site { rev: ri, num, path: p.clone() }, text: b.to_string() });
+                    }
+                }
+                let (mut r2, mut n2, mut strs, mut names) = (vec![], vec![], vec![], vec![]);
+                collect_all(&v, &mut vec![], &mut r2, &mut n2, &mut strs, &mut names);
+                for p in strs {
+                    for h in HOSTILE_STRINGS {
+                        out.push(HFault::StrValue { site: Site { rev: ri, num, path: p.clone() }, bytes: h.to_vec() });
+                    }
+                }
+                for p in names {
+                    for h in HOSTILE_NAMES {
+                        out.push(HFault::NameValue { site: Site { rev: ri, num, path: p.clone() }, name: h.to_string() });
                     }
                 }
             }
@@ -388,6 +428,20 @@ pub fn apply(spec: &DocSpec, faults: &[HFault]) -> DocSpec {
                     }
                 }
             }
+            HFault::StrValue { site, .. } | HFault::NameValue { site, .. } => {
+                let new = match f {
+                    HFault::StrValue { bytes, .. } => Val::Str(if &bytes[..] == b"@long" { vec![b'A'; 10_000] } else { bytes.clone() }),
+                    HFault::NameValue { name, .. } => Val::Name(name.clone()),
+                    _ => unreachable!(),
+                };
+                if let Some(slot) = s.revisions.get_mut(site.rev).and_then(|r| r.slots.get_mut(&site.num)) {
+                    if let Some(mut v) = slot_val(slot) {
+                        if replace_at(&mut v, &site.path, new) {
+                            set_slot_val(slot, v);
+                        }
+                    }
+                }
+            }
             HFault::DropKey { site } => {
                 if let Some(slot) = s.revisions.get_mut(site.rev).and_then(|r| r.slots.get_mut(&site.num)) {
                     if let Some(mut v) = slot_val(slot) {
@@ -437,7 +491,22 @@ impl C14 {
             }
         }
         // 3000 objects that all look alike: faults are planted in the first few only
-        let singles: Vec<Vec<HFault>> = t.iter().map(|(name, s)| if *name == "long_chain" { single_faults_near(s, 8) } else { single_faults(s) }).collect();
+        let mut singles: Vec<Vec<HFault>> = t.iter().map(|(name, s)| if *name == "long_chain" { single_faults_near(s, 8) } else { single_faults(s) }).collect();
+        // the name-value and string-value faults are the bulk of the space (34 names / 14 strings per
+        // site): the quick tier enumerates every third of them (in a fixed rotation), the thorough tier all
+        if tier == Tier::Quick {
+            for v in singles.iter_mut() {
+                let mut k = 0usize;
+                v.retain(|f| {
+                    if matches!(f, HFault::NameValue { .. } | HFault::StrValue { .. }) {
+                        k += 1;
+                        k % 3 == 0
+                    } else {
+                        true
+                    }
+                });
+            }
+        }
         // both tiers enumerate the complete single-fault space of every template; the tiers differ in the
         // number of seeded multi-fault cases
         let enum_templates = t.len();
@@ -501,7 +570,7 @@ impl Check for C14 {
         CheckInfo {
             id: "C14",
             level: "fault_enumeration",
-            rule: "one case = a typed template (page tree; name tree + number tree + outlines; Type0/CID/simple fonts with /W, /Differences, ToUnicode; colour spaces with all four function types; stream /Length references, predictors, LZW, CCITT/DCT image parameters; hand-written object stream with /Extends under an xref stream; two-revision files with classic and stream sections; /Encrypt dictionaries that fail the password check and two RC4-encrypted 'rich' documents (plain and through crypt filters with object streams) that open with the empty user password; page tree, name tree and number tree that are DAGs; a 3000-link /Parent chain without a cycle (faults planted in its first 8 objects); annotations with appearance dictionaries; the 'rich' document) + structure-aware at-rest faults written through the harness's writer: retarget (every reference field x every object incl. itself, object 0 and an undefined number), boundary (every numeric field x {-1, 0, 1, 2^31-1, 2^32-1, 2^64-1}), nest (25 levels), stream /Length reference retargeted, stream data replaced by 49 hostile payloads (PostScript calculator programs, CMaps, content streams incl. inline images without data, object-stream headers, runs of 100 000-150 000 '%', '(' or escaped line ends), every dictionary entry removed, hostile stream dictionary entries (/Length disagreeing with the data, /Filter arrays of 1000 stages, mismatching /DecodeParms, /JBIG2Globals naming the stream itself), hostile /Size /Prev (incl. self-loop) /Root /W /Index /Length of trailer and xref stream; x {strict, tolerant} x {cached, uncached} x {2 MiB, 8 MiB stack} x {no bytes, some bytes before the header}; walked by the C01 walker under the same meters in a supervised worker process. Enumerated part: the complete single-fault space of all templates (both tiers); plus seeded cases with 2-3 simultaneous faults (100 000 quick, 2 000 000 thorough). Non-trivial = outcome differs from the unfaulted template; distinct = hash of (template, faults, configuration)",
+            rule: "one case = a typed template (page tree; name tree + number tree + outlines; Type0/CID/simple fonts with /W, /Differences, ToUnicode; colour spaces with all four function types; stream /Length references, predictors, LZW, CCITT/DCT image parameters; hand-written object stream with /Extends under an xref stream; two-revision files with classic and stream sections; /Encrypt dictionaries that fail the password check and two RC4-encrypted 'rich' documents (plain and through crypt filters with object streams) that open with the empty user password; page tree, name tree and number tree that are DAGs; a 3000-link /Parent chain without a cycle (faults planted in its first 8 objects); annotations with appearance dictionaries; the 'rich' document) + structure-aware at-rest faults written through the harness's writer: retarget (every reference field x every object incl. itself, object 0 and an undefined number), boundary (every numeric field x {-1, 0, 1, 2^31-1, 2^32-1, 2^64-1}), nest (25 levels), stream /Length reference retargeted, stream data replaced by 49 hostile payloads (PostScript calculator programs, CMaps, content streams incl. inline images without data, object-stream headers, runs of 100 000-150 000 '%', '(' or escaped line ends), every dictionary entry removed, hostile stream dictionary entries (/Length disagreeing with the data, /Filter arrays of 1000 stages, mismatching /DecodeParms, /JBIG2Globals naming the stream itself), hostile /Size /Prev (incl. self-loop) /Root /W /Index /Length of trailer and xref stream; x {strict, tolerant} x {cached, uncached} x {2 MiB, 8 MiB stack} x {no bytes, some bytes before the header}; walked by the C01 walker under the same meters in a supervised worker process. every name value replaced by 34 names that select another reader and every string value by 14 hostile strings (dates with multi-byte text on a field border, lone byte-order marks, 10 000 bytes); Enumerated part: the complete single-fault space of all templates (thorough; quick: complete except name / string values, of which every third is taken); plus seeded cases with 2-3 simultaneous faults (100 000 quick, 2 000 000 thorough). Non-trivial = outcome differs from the unfaulted template; distinct = hash of (template, faults, configuration)",
             assumptions: vec![
                 "planting the hostile structure is generation (stated as such); the simulation part is the resource side: stack size, allocator cap and meters, log-event budget, worker process death".into(),
                 "same resource bounds as C01".into(),
